@@ -18,6 +18,7 @@ hyperparameter; it is read once more after start().  Observation 0 is the hook b
 Records {key, what, replay, found_input} go back to props/_c15_sched.py.
 """
 import importlib
+import json
 import math
 import sys
 import traceback
@@ -112,7 +113,7 @@ def objective(x):
 
 
 def opt_class(item):
-    mod = importlib.import_module(item['file'][:-3].replace('/', '.'))
+    mod = importlib.import_module(item.get('cls_file', item['file'])[:-3].replace('/', '.'))
     return getattr(mod, item['opt'])
 
 
@@ -282,6 +283,11 @@ def check_case(case, items, stats):
             continue
         if kind[0] == 'range':
             lo, hi = hp0[kind[1]], hp0[kind[2]]
+            if not lo <= hi:
+                # an inverted (empty) declared range is not a valid setting for C15: nothing can lie in it.
+                # (That the setters accept it is a guard matter, property C14.)  The matrix never generates one.
+                stats['premise_false'] += 1
+                continue
             for j, v in enumerate(seq):
                 stats['oracle_checks'] += 1
                 fv = float(v)
@@ -291,8 +297,6 @@ def check_case(case, items, stats):
                 sk = special_key(case['opt'], hp, hp0)
                 if sk and nwr > 0:
                     key = sk
-                elif lo > hi:
-                    key = '%s:%s>%s' % (case['opt'], kind[1], kind[2])
                 elif nwr == 0:
                     key = '%s:%s:initial-outside-range' % (case['opt'], hp)
                 elif fv == fv and (close(fv, lo) or close(fv, hi)):
@@ -350,7 +354,8 @@ def fmt_hp(hp0):
 # ---------------------------------------------------------------- the case matrix
 
 def corners(opt, rnd, quick):
-    """[(hyperparams, post_set, tag)] -- settings accepted by the guards."""
+    """[(hyperparams, post_set, tag)] -- settings accepted by the guards, always with min <= max for every
+    declared range (C15 quantifies over valid settings; an empty range is not one)."""
     out = []
     if opt == 'AIWPSO':
         out += [({}, [], 'default'),
@@ -360,8 +365,7 @@ def corners(opt, rnd, quick):
                 ({'w_min': 0.3, 'w_max': 2.5, 'w': 1.0}, [], 'wide'),
                 ({'w_min': 1e-3, 'w_max': 1e3, 'w': 1.0}, [], 'huge'),
                 ({'w_min': 0.8, 'w_max': 0.9}, [], 'initial-w-below'),
-                ({'w': 5.0}, [], 'initial-w-above'),
-                ({'w_min': 0.95}, [], 'inverted')]
+                ({'w': 5.0}, [], 'initial-w-above')]
         for i in range(10 if quick else 60):
             a = round(rnd.uniform(0, 2), rnd.choice([1, 3, 17]))
             b = a + round(rnd.uniform(0, 2), rnd.choice([1, 3, 17]))
@@ -375,9 +379,7 @@ def corners(opt, rnd, quick):
                 ({'bw_min': 0, 'bw_max': 5}, [], 'bw_min=0'),
                 ({'bw_min': 0, 'bw_max': 0, 'bw': 0}, [], 'bw_min=bw_max=0'),
                 ({'PAR_min': 0.8, 'PAR_max': 0.9}, [], 'initial-PAR-below'),
-                ({'bw_min': 2, 'bw_max': 3}, [], 'initial-bw-below'),
-                ({'bw_min': 20}, [], 'inverted-bw'),
-                ({}, [['PAR_max', 0.5], ['PAR_min', 0.9]], 'inverted-PAR')]
+                ({'bw_min': 2, 'bw_max': 3}, [], 'initial-bw-below')]
         for i in range(8 if quick else 40):
             a = round(rnd.uniform(0, 1), 3)
             b = round(rnd.uniform(a, 1), 3)
@@ -445,12 +447,17 @@ def main():
     dist = {}
     samples = []
     nontrivial = 0
+    seen_cfg = set()
     for case in cases:
         recs, r = check_case(case, items, stats)
         k = '%s/%s' % (case['opt'], case['tag'].split(' ')[0])
         dist[k] = dist.get(k, 0) + 1
-        if r['obs'] and len(r['obs']) > 2 and any(r['obs'][0] != o for o in r['obs'][1:]):
-            nontrivial += 1
+        if r['obs'] and len(r['obs']) > 2 and any(repr(r['obs'][0]) != repr(o) for o in r['obs'][1:]):
+            sig = json.dumps([case['opt'], case['hyperparams'], case['post_set'], case['n_it'], case['n_agents'], case['mode']],
+                             sort_keys=True)
+            if sig not in seen_cfg:          # distinct configurations in which an adaptive hyperparameter changed
+                seen_cfg.add(sig)
+                nontrivial += 1
         if len(samples) < 5 and case['n_it'] == 3 and case['tag'] == 'default' and case['mode'] == 'natural' \
                 and case['opt'] not in [s['opt'] for s in samples]:
             samples.append({'opt': case['opt'], 'n_it': 3, 'observed': [{k2: pyval(v) for k2, v in o.items()} for o in r['obs']]})
